@@ -38,3 +38,4 @@ CFG = {'level': 'exploration',
 CFG['level_text'] += ' Every small honest archive is created a second time into a writer that fails at a case-derived point (0, 1, half, last byte, random): creation must then report an error.'
 CFG['level_text'] += " Every small honest creation is also repeated with one file's reader failing part-way (six error values): creation must fail; two cases have a go.mod / LICENSE that reports 100 bytes on the first Lstat and MaxGoMod+1 afterwards."
 CFG['level_text'] += ' A LICENSE of MaxLICENSE+1 bytes below the root must be archived like any other file; a third of the bad-module cases pair a usual path with a generated version.'
+CFG['level_text'] += ' A third of the failing-reader repeats fail in Open itself (not-exist, permission, wrapped, plain).'
